@@ -54,6 +54,15 @@ func (r *Run) WorkerLoop(cpuBudget float64, fn func(i int)) {
 	}
 	var mu sync.Mutex
 	cur, curStart := -1, 0.0
+	curBudget := cpuBudget
+	// a case may lower the budget once it knows its own size (CaseBudget)
+	r.caseBudget = func(b float64) {
+		mu.Lock()
+		if b > 0 && b < curBudget {
+			curBudget = b
+		}
+		mu.Unlock()
+	}
 	write := func(i int, status int64) {
 		var b [16]byte
 		binary.LittleEndian.PutUint64(b[0:], uint64(int64(i)))
@@ -65,11 +74,11 @@ func (r *Run) WorkerLoop(cpuBudget float64, fn func(i int)) {
 			for {
 				time.Sleep(250 * time.Millisecond)
 				mu.Lock()
-				c, s := cur, curStart
+				c, s, bud := cur, curStart, curBudget
 				mu.Unlock()
-				if c >= 0 && ProcessCPU()-s > cpuBudget {
+				if c >= 0 && ProcessCPU()-s > bud {
 					write(c, 1)
-					fmt.Fprintf(os.Stderr, "worker: CPU budget %.1fs exceeded at case %d\n", cpuBudget, c)
+					fmt.Fprintf(os.Stderr, "worker: CPU budget %.1fs exceeded at case %d\n", bud, c)
 					os.Exit(exitCPU)
 				}
 			}
@@ -80,7 +89,7 @@ func (r *Run) WorkerLoop(cpuBudget float64, fn func(i int)) {
 			continue
 		}
 		mu.Lock()
-		cur, curStart = i, ProcessCPU()
+		cur, curStart, curBudget = i, ProcessCPU(), cpuBudget
 		mu.Unlock()
 		write(i, 0)
 		fn(i)
@@ -90,6 +99,15 @@ func (r *Run) WorkerLoop(cpuBudget float64, fn func(i int)) {
 	mu.Unlock()
 	write(-1, 2)
 	jf.Close()
+}
+
+// CaseBudget lowers the CPU watchdog budget of the case being run by WorkerLoop (a case
+// that knows its input is small need not wait for the budget of the largest input before
+// a hang is cut short). No effect outside a worker.
+func (r *Run) CaseBudget(b float64) {
+	if r.caseBudget != nil {
+		r.caseBudget(b)
+	}
 }
 
 func readJournal(path string) (idx int, status int64, ok bool) {
@@ -237,9 +255,27 @@ func (r *Run) RunChildren(cfg ChildCfg, onDeath func(d Death)) {
 	var dmu sync.Mutex
 	var deaths []Death
 
+	// After this many confirmed deaths the verdict cannot change any more; the remaining
+	// chunks are dropped (each further hang would cost two watchdog periods).
+	const maxDeaths = 40
+	capped := false
 	work := func() {
 		defer inflight.Done()
 		for {
+			dmu.Lock()
+			full := len(deaths) >= maxDeaths
+			if full && !capped {
+				capped = true
+				r.Note("stopped after %d confirmed child deaths: the remaining cases were not run", len(deaths))
+				r.Cover("stopped-early-after-confirmed-child-deaths")
+			}
+			dmu.Unlock()
+			if full {
+				qmu.Lock()
+				queue = nil
+				qmu.Unlock()
+				return
+			}
 			c, ok := pop()
 			if !ok {
 				return
